@@ -131,6 +131,32 @@ CLAIMED = {
          'contexts and get_scu are judged and diffed with the model.',
          'Known finding D18 (open): more than 128 configured SOP classes give context id 257. Replies that answer a context '
          'that was never proposed raise KeyError (outside the property). get_scu concerns classes configured as SCU.'),
+ 'C16': ('DESIGN.md §6 C16',
+         'Lean 4 theorem on the C-FIND provider/user pair for every match list + wire-level harness with deferred consumption',
+         'find_exact: for every list of matches with pending statuses the user yields exactly those (data set, status) '
+         'pairs in order, then one final non-pending response, and stops (stops_at_final). The real qr_find_scp / '
+         'modality_work_list_scp are run against the real qr_find_scu / modality_work_list_scu through their wire forms, with '
+         'the sent fragments consumed only after the provider finished (a slow provider thread), lengths 0..30, both pending '
+         'codes in every mix, three transfer syntaxes, maximum lengths forcing multi-fragment responses.',
+         'Trusted: Lean kernel; harness mock association; pydicom. The c_find wrapper\'s association handling is exercised '
+         'on real threads in C14/C20; here its loop (qr_find_scu) is.'),
+ 'C17': ('DESIGN.md §6 C17',
+         'Lean 4 theorems on the provider models + harness re-reading every response from its wire form',
+         'For each provider (C-ECHO, C-STORE, C-FIND, C-MOVE, N-ACTION, N-EVENT-REPORT, C-STORE-RSP of the C-GET user) the '
+         'model\'s responses are on the request\'s context, carry its message id, SOP class (and instance), the matching '
+         'response type and the handler\'s status or the documented failure status, and every request is answered. The '
+         'real callables run on a mock association over boundary message ids, UID lengths, context ids, each status class '
+         'and EventHandlingError, commitment with success/failure/mixed lists and a failing report association.',
+         'Trusted: Lean kernel; the models are simple by design - the strength is in the wire-level tie.'),
+ 'C19': ('DESIGN.md §6 C19',
+         'Lean 4 theorems on the C-MOVE provider and C-GET user models + harness over all outcome histories',
+         'move_progress (k-th pending response: k performed, total-k remaining), move_one_final (also for 0), '
+         'move_final_complete, move_each_once_in_order, get_answers_each_once, get_yields_in_order, get_stops_at_final, for '
+         'every list. The real qr_move_scp runs with a mock sub-association over all success/warning/failure histories up to '
+         'length 4 and seeded longer ones, the real qr_get_scu with pending responses interleaved at every position; '
+         'responses are re-read from the wire (deferred consumption) and diffed with the models.',
+         'Trusted: Lean kernel; harness mocks. An unknown destination (handler returns no remote AE) makes the provider '
+         'raise after reporting nothing: outside the property except that no sub-operation is performed.'),
 }
 
 PENDING_REASON = 'check not built yet in this round; planned in DESIGN.md §6 (Lean model + theorem + tie)'
